@@ -83,7 +83,15 @@ def run(chk):
         hts = [n_ for n_ in gw.nodes if n_.kind == "test" and "_read_timeout_handle" in norm.raw(n_.ast)]
         ups = [n_ for n_ in gw.nodes if K.node_has(n_, "$B.write_with_length(writer, $L)")]
         if arms and ups:
-            p1 = gw.find_path(arms, lambda n_: n_ in ups, lambda n_: n_ in drops or n_ in hts, EXPLICIT)
+            # what guards the arming (`if <protocol> is not None`) still holds afterwards: the False edge of the same test is no path
+            held = {(l.text, l.pos) for arm_ in arms for l in PC.units(PC.pc(arm_.ast, raw=True))}
+
+            def _established(n_):
+                cn = norm.cnf_raw(n_.ast, True)
+                return bool(cn) and all(len(c_) == 1 and all((l.text, l.pos) in held for l in c_) for c_ in cn)
+
+            p1 = K.find_path_edges(gw, arms, lambda n_: n_ in ups, lambda n_: n_ in drops or n_ in hts,
+                                   lambda n_, t_, k_: k_ == "F" and n_.kind == "test" and _established(n_))
             p2 = gw.find_path(None, lambda n_: n_ in ups, lambda n_: n_ in drops, EXPLICIT, start_edges=[(t_, "T") for t_ in hts]) if hts else None
             if p1 is None and p2 is None:
                 chk.ok("C18.readtimer", drops[0].ast if drops else a, "the timer armed for the `100 Continue` wait is dropped before the body is uploaded (unless input re-armed it meanwhile)")
